@@ -11,7 +11,8 @@ declare -A CHECKS=(
  [C05]="C05" [C05b]="C05" [C06]="C06" [C06b]="C06" [C07]="C07" [C07b]="C07" [C08]="C08" [C08b]="C08"
  [C09]="C09" [C09b]="C09" [C09c]="C09" [C10]="C10" [C10b]="C10" [C10c]="C01" [C11]="C11" [C11b]="C12" [C11c]="C11"
  [C12]="C12" [C12b]="C12" [C13]="C13" [C13b]="C13" [C14]="C14" [C14b]="C14" [C15]="C15" [C15b]="C15"
- [C16]="C16" [C16b]="C16" [C17]="C17 C16" [C17b]="C17" [C18]="C18" [C18b]="C18"
+ [C16]="C16" [C16b]="C16" [C04c]="C04" [C05c]="C05" [C14c]="C14" [C15c]="C15"
+ [C17]="C17 C16" [C17b]="C17" [C18]="C18" [C18b]="C18"
 )
 for id in $(ls seeded | sort); do
   cks=${CHECKS[$id]:-}
